@@ -192,3 +192,70 @@ def detector_abort_sweep(chk: Check, n_contracts: int, n_k: int) -> None:
         "faults_fired": chk.stats["faults_fired"].get("exc_call", 0) - before,
         "wall_s": round(time.time() - t0, 1),
     }
+
+
+def build_abort_sweep(chk: Check, n_contracts: int, n_k: int) -> None:
+    """C12: abort the build of one function at points spread over its whole analysis, then build a
+    *different* function of the same contract on the same Teal object (they share the subroutine
+    blocks), then the first one again."""
+    ctx = chk.ctx
+    rng = random.Random("buildabort:%d" % chk.seed)
+    cands = [c for c in ctx.with_subs if c in ctx.contracts and len(ctx.paths.get(c, [])) > 2 and ctx.info[c]["lines"] <= 200]
+    # contracts whose methods pin different group indices come first: what one function leaves
+    # behind is only wrong for another one if their contexts differ inside the shared subroutine
+    def pins(c: str) -> int:
+        src = open(os.path.join(os.path.dirname(os.path.dirname(os.path.abspath(__file__))), "corpus", "teal", c + ".teal"), encoding="utf-8").read()
+        return -min(3, src.count("txn GroupIndex"))
+
+    ordered = sorted(_slice(chk, cands, len(cands), "buildabort"), key=pins)
+    cands = ordered[:n_contracts]
+    # enumeration pass: call sites of one build per contract
+    jobs = []
+    chosen: Dict[str, List[List[str]]] = {}
+    for cid in cands:
+        paths = [p for p in ctx.paths[cid] if len(p) > 1] or ctx.paths[cid]
+        a = rng.choice(paths)
+        others = [p for p in paths if p != a] or ctx.paths[cid]
+        chosen[cid] = [a, rng.choice(others), rng.choice(others)]
+        spec = {"ops": [{"op": "parse", "c": cid, "h": "T"}, {"op": "build", "h": "T", "path": a, "trace": "enumerate"}], "immut": False}
+        jobs.append((cid, spec, 0))
+    sites: Dict[str, Dict[str, int]] = {}
+    for cid, res in chk.runner.run_many(jobs, timeout=600):
+        evs = res.get("events", [])
+        if len(evs) > 1 and evs[1].get("sites"):
+            sites[cid] = {k: v for k, v in evs[1]["sites"].items() if k.startswith(("analyses/", "teal/parse_functions", "teal/functions"))}
+    specs: List[Dict[str, Any]] = []
+    idx = 0
+    for cid in sorted(sites):
+        names = sorted(sites[cid])
+        hot = [s for s in names if s.split(":")[1] in gen.HOT_FUNCS]
+        for _ in range(n_k):
+            site = rng.choice(hot) if hot and rng.random() < 0.7 else rng.choice(names)
+            count = sites[cid][site]
+            k = rng.randrange(1, count + 1)
+            f, fn = site.split(":")
+            a, b, c = chosen[cid]
+            exc = rng.choice(["KeyboardInterrupt", "MemoryError", "RuntimeError"])
+            ops = [
+                {"op": "parse", "c": cid, "h": "T1", "uid": 0},
+                {"op": "build", "h": "T1", "path": list(a), "s1": "id", "uid": 1,
+                 "fault": {"kind": "exc_call", "file": f, "func": fn, "k": k, "exc": exc}},
+                {"op": "build", "h": "T1", "path": list(b), "s1": "id", "f": "F1", "uid": 2},
+                {"op": "build", "h": "T1", "path": list(a), "s1": "id", "f": "F2", "uid": 3},
+                {"op": "build", "h": "T1", "path": list(c), "s1": "id", "f": "F3", "uid": 4},
+            ]
+            specs.append({"ops": ops, "hashseed": rng.choice(ctx.hashseeds), "index": 5000000 + idx, "faulty": True})
+            idx += 1
+    t0 = time.time()
+    before = chk.stats["faults_fired"].get("exc_call", 0)
+    for i in range(0, len(specs), 128):
+        chk.run_batch(specs[i : i + 128], 1800.0)
+        if len(chk.violations) >= 5:
+            break
+    log(f"[c12:buildabort] sessions={len(specs)} t={time.time()-chk.t0:.0f}s")
+    chk.stats["sweep_build_abort"] = {
+        "contracts": sorted(sites),
+        "sessions": len(specs),
+        "faults_fired": chk.stats["faults_fired"].get("exc_call", 0) - before,
+        "wall_s": round(time.time() - t0, 1),
+    }
